@@ -699,6 +699,15 @@ func (fv *FnV) comparable(x, y string) string {
 	return not(or(bad...))
 }
 
+// convFn: the named function for a float/integer conversion operator (defined in the registry on first use).
+func (g *Gen) convFn(op, from, to string) string {
+	name := "cv!" + sanitize(op) + "!" + sanitize(from)
+	if !g.reg.has(name) {
+		g.reg.add(fmt.Sprintf("(define-fun %s ((x %s)) %s (%s x))", name, from, to, op), name)
+	}
+	return name
+}
+
 func (fv *FnV) convert(st *State, x *SV, from, to types.Type) *SV {
 	g := fv.g
 	fs, ts := g.sortOf(from), g.sortOf(to)
@@ -722,18 +731,20 @@ func (fv *FnV) convert(st *State, x *SV, from, to types.Type) *SV {
 		if ts == sF32 {
 			eb, sb = 8, 24
 		}
+		// conversions between integers and floats go through named functions, so that the solver front end can first
+		// try the query with them left uninterpreted (congruence is enough whenever both sides convert the same value)
 		if isSigned(from) {
-			out = fmt.Sprintf("((_ to_fp %d %d) RNE %s)", eb, sb, xt)
+			out = app(g.convFn(fmt.Sprintf("(_ to_fp %d %d) RNE", eb, sb), fs, ts), xt)
 		} else {
-			out = fmt.Sprintf("((_ to_fp_unsigned %d %d) RNE %s)", eb, sb, xt)
+			out = app(g.convFn(fmt.Sprintf("(_ to_fp_unsigned %d %d) RNE", eb, sb), fs, ts), xt)
 		}
 	case (fs == sF64 || fs == sF32) && isBV(ts):
 		w := bvWidth(ts)
 		// Go: the result of converting an out-of-range or NaN value is implementation-defined; fp.to_sbv leaves it unspecified as well.
 		if isSigned(to) {
-			out = fmt.Sprintf("((_ fp.to_sbv %d) RTZ %s)", w, xt)
+			out = app(g.convFn(fmt.Sprintf("(_ fp.to_sbv %d) RTZ", w), fs, ts), xt)
 		} else {
-			out = fmt.Sprintf("((_ fp.to_ubv %d) RTZ %s)", w, xt)
+			out = app(g.convFn(fmt.Sprintf("(_ fp.to_ubv %d) RTZ", w), fs, ts), xt)
 		}
 	case fs == sF64 && ts == sF32:
 		out = "((_ to_fp 8 24) RNE " + xt + ")"
